@@ -69,8 +69,15 @@ func (a AddressDecMap) Encode(w stdio.Writer) error {
 		return errors.WithMessage(err, "encoding map length")
 	}
 
-	for i, addr := range a {
-		id := int(i)
+	// Encode the entries in ascending order of their backend ID. The iteration
+	// order of a map is random, but equal maps must have equal encodings.
+	indexes := make([]int, 0, len(a))
+	for i := range a {
+		indexes = append(indexes, int(i))
+	}
+	sort.Ints(indexes)
+
+	for _, id := range indexes {
 		if id < math.MinInt32 || id > math.MaxInt32 {
 			return errors.New("map index out of bounds")
 		}
@@ -78,9 +85,9 @@ func (a AddressDecMap) Encode(w stdio.Writer) error {
 		if err != nil {
 			return errors.WithMessage(err, "encoding map index")
 		}
-		err = perunio.Encode(w, addr)
+		err = perunio.Encode(w, a[wallet.BackendID(id)])
 		if err != nil {
-			return errors.WithMessagef(err, "encoding %d-th address map entry", i)
+			return errors.WithMessagef(err, "encoding %d-th address map entry", id)
 		}
 	}
 	return nil
